@@ -200,3 +200,4 @@ CHECKS["C20"]["race_packages"] = ["schedh"]
 CHECKS["C07"]["race_packages"] = ["schedh"]
 CHECKS["C18"]["race_packages"] = ["schedh"]
 CHECKS["C14"]["packages"] = ["l2monitor", "schedh"]
+CHECKS["C17"]["packages"] = ["l2node", "schedh"]
